@@ -327,6 +327,35 @@ pub fn normalize_doc(ix: &SchemaIx, doc: &ExecDoc) -> ExecDoc {
 
 // ------------------------------------------------------------------------------------ C01 / C02
 
+fn collect_syntactic<'a>(cx: &'a ExecCx, obj: &str, ss: &'a SelSet, out: &mut Vec<(String, Vec<&'a Field>)>, depth: usize) {
+    if depth > 12 {
+        return;
+    }
+    for s in &ss.items {
+        match s {
+            Sel::Field(f) => {
+                let key = f.key().to_string();
+                match out.iter_mut().find(|(k, _)| *k == key) {
+                    Some((_, v)) => v.push(f),
+                    None => out.push((key, vec![f])),
+                }
+            }
+            Sel::Inline { cond, sels, .. } => {
+                if cond.as_ref().is_none_or(|c| cx.ix.possible(&c.s).iter().any(|p| p == obj)) {
+                    collect_syntactic(cx, obj, sels, out, depth + 1);
+                }
+            }
+            Sel::Spread { name, .. } => {
+                if let Some(f) = cx.doc.frag(&name.s) {
+                    if cx.ix.possible(&f.cond.s).iter().any(|p| p == obj) {
+                        collect_syntactic(cx, obj, &f.sels, out, depth + 1);
+                    }
+                }
+            }
+        }
+    }
+}
+
 /// is some response key selected more than once for some possible object type, once fragments are expanded?
 fn expanded_duplicates(cx: &ExecCx, ss: &SelSet, parent: &str, depth: usize) -> bool {
     if depth > 10 {
@@ -334,8 +363,9 @@ fn expanded_duplicates(cx: &ExecCx, ss: &SelSet, parent: &str, depth: usize) -> 
     }
     for obj in cx.ix.possible(parent) {
         let mut fields = vec![];
-        exec::collect(cx, &obj, ss, &Sigma::new(), &BTreeMap::new(), &mut fields, &mut vec![]);
-        // collect() skips nothing here: directives with variables are undecidable and count as included
+        // syntactic expansion: unlike CollectFields, a fragment spread twice is expanded twice (that is what the printer
+        // merges); nothing is skipped: directives count as included
+        collect_syntactic(cx, &obj, ss, &mut fields, 0);
         for (_, nodes) in &fields {
             if nodes.len() > 1 {
                 return true;
